@@ -170,14 +170,20 @@ def baseFn : Fn :=
     firstIsSelf := false, isBound := false, retAnn := some (.cls 2), genRet := .notGenType, flavour := .sync, mode := .pedantic }
 /-- (was region `bodyMentionsStaticmethod`, repaired) the predicates "static method", "property setter", "decorated with
     pedantic" and the decorator count read only the decorator lines - the source text in front of the first `def`: two
-    sources with the same decorator lines give the same four flags, whatever the body, comments or docstring say -/
+    sources with the same decorator lines (comments removed) give the same four flags, whatever the body, comments or docstring say -/
 theorem header_flags_ignore_body (name s s' : String) (h : headerOf s = headerOf s') :
     (flagsOfSource name s).isStatic = (flagsOfSource name s').isStatic ∧
     (flagsOfSource name s).isSetter = (flagsOfSource name s').isSetter ∧
     (flagsOfSource name s).isPedantic = (flagsOfSource name s').isPedantic ∧
     (flagsOfSource name s).numDecorators = (flagsOfSource name s').numDecorators := by
-  have hs : staticInHeader = true ∧ setterInHeader = true ∧ pedanticInHeader = true := by decide
-  simp only [flagsOfSource, scopeOf, hs.1, hs.2.1, hs.2.2, ↓reduceIte, h, and_self]
+  have hs : staticInHeader = true ∧ setterInHeader = true ∧ pedanticInHeader = true ∧ numDecoratorsCountedInHeaderLines = true := by decide
+  simp only [flagsOfSource, scopeOf, hs.1, hs.2.1, hs.2.2.1, hs.2.2.2, ↓reduceIte, h, and_self]
+
+/-- (repaired by b8ad1a1) … and what a COMMENT on a decorator line mentions is no decorator either: the decorator lines are read
+    without their comments -/
+theorem cfg_header_comments : headerStripsComments = true ∧ numDecoratorsCountedInHeaderLines = true := by decide
+example : (flagsOfSource "f" "@pedantic  # not a @staticmethod, see @x\ndef f(a: int) -> int:\n    return a\n").isStatic = false ∧
+    (flagsOfSource "f" "@pedantic  # not a @staticmethod, see @x\ndef f(a: int) -> int:\n    return a\n").numDecorators = 1 := by decide
 /-- **C04 (body text), keyword calls: full strength.**  Take two source texts with the same decorator lines (the text in
     front of the first `def`) - the body, comments and docstring may differ arbitrarily.  A call that passes nothing
     positionally (beyond the implicit self / cls) and every required declared parameter by keyword has exactly the same
